@@ -57,7 +57,7 @@ def make_ctx(item: dict) -> explore.Ctx:
     name = scen.name_of(spec) + f'/{kind}/{bidding}'
 
     def factory():
-        return bundled.bundled_setup(plans, spec['teams'], play_kind=kind, bidding=bidding, random_indices=indices)
+        return bundled.bundled_setup(plans, spec['teams'], play_kind=kind, bidding=bidding, random_indices=indices, fragment=spec.get('fragment'))
 
     def judge(x: world.Execution, c: Counter, choices):
         rp = {'kind': 'session', 'net': True, 'item': item, 'choices': list(x.choices) if not (choices and choices[0] == 'priority') else None,
@@ -129,6 +129,9 @@ def items(tier: str, seed: int):
     its.append(dict(spec=scen.mk_spec([scen.board(seed + 21, 'passout', 'E', 'Both'), scen.board(seed + 22, 'doubled', 'S', 'NS'), scen.board(seed + 23, 'passout', 'W', 'EW')],
                                       teams={'NS': 'N-S "x"', 'EW': ''}), play='highest', d=0, priority=True))
     its.append(dict(spec=scen.mk_spec([scen.board(seed + 24, 'passout', 'N', 'None')]), bidding='weak', play='random', d=0))
+    # the network delivers every message in two pieces (the final LF separately): both ends must still understand each other
+    its.append(dict(spec=scen.mk_spec([scen.board(seed + 32, 'doubled', 'W', 'NS'), scen.board(seed + 33, 'passout', 'E', 'None')], fragment='crlf'), play='lowest', d=0))
+    its.append(dict(spec=scen.mk_spec([scen.board(seed + 34, 'third', 'S', 'Both')], fragment='crlf'), play='highest', d=0))
     its.append(dict(spec=scen.mk_spec([scen.board(seed + 25, 'passout', 'S', 'Both'), scen.board(seed + 26, 'passout', 'W', 'NS')]), bidding='pass', play='lowest', d=0))
     # enumerated choices of an index-driven player: every pair (i, j) of the first two choices of the opening leader and of declarer
     base = scen.mk_spec([scen.board(seed + 27, 'open1C', D4[seed % 4], V4[seed % 4])])
